@@ -129,9 +129,24 @@ def jobs_maven(tier):
     return jobs
 
 
+def jobs_resolvers(tier):
+    q = tier == "quick"
+    base = dict(BASE, timeout_s=600 if q else 3000, unwind=200, max_steps=20_000_000, max_depth=200,
+                summarise=["deps.dev/util/semver.compare"])
+    out = {}
+    for pkg in ("rnpm", "rmaven", "rpypi"):
+        jobs = [dict(base, harness="VerifC04ResolveRequirement", params={"n": n, "marker": -1}) for n in range(0, (3 if q else 4) + 1)]
+        if pkg == "rpypi":
+            jobs += [dict(base, harness="VerifC04ResolveRequirement", params={"n": 0, "marker": m}) for m in range(0, (3 if q else 5) + 1)]
+        out[pkg] = jobs
+    return out
+
+
 def run(tier):
     dj, vj = jobs_texts(tier)
-    groups = [Group("semver", jobs_semver(tier)), Group("pypi", jobs_pypi(tier)), Group("rpypi", jobs_rpypi(tier)),
+    rj = jobs_resolvers(tier)
+    groups = [Group("semver", jobs_semver(tier)), Group("pypi", jobs_pypi(tier)), Group("rpypi", jobs_rpypi(tier) + rj["rpypi"]),
+              Group("rnpm", rj["rnpm"], files=["c04resolve.go"]), Group("rmaven", rj["rmaven"], files=["c04resolve.go"]),
               Group("schema", jobs_schema(tier)), Group("deptest", dj), Group("versiontest", vj),
               Group("resolve", jobs_resolve(tier)), Group("maven", jobs_maven(tier))]
     return run_property("C04", tier, groups, required_covers=["accepted", "rejected", "canon computed"],
